@@ -38,8 +38,10 @@ Ops == {<<"len">>, <<"empty">>, <<"iter">>, <<"into_iter">>} \cup {<<"get", i>> 
 Z8 == W8(0)
 Prefixes == { <<>>, << <<"next", Z8>> >>, << <<"next", Z8>>, <<"next", Z8>> >>, << <<"nth", W8(0)>> >>,
               << <<"nth", W8(1)>> >>, << <<"nth", W8(2)>> >>, << <<"next", Z8>>, <<"nth", W8(1)>> >>,
-              << <<"nth", W8(1)>>, <<"next", Z8>> >>, << <<"nth", W8(1)>>, <<"nth", W8(0)>> >> }
-Finals == { <<"rest", Z8>>, <<"fold", Z8>>, <<"count", Z8>>, <<"last", Z8>>, <<"nth", MaxW>> }
+              << <<"nth", W8(1)>>, <<"next", Z8>> >>, << <<"nth", W8(1)>>, <<"nth", W8(0)>> >>,
+              << <<"size_hint", Z8>>, <<"nth", W8(1)>>, <<"size_hint", Z8>> >>,
+              << <<"nth", MaxW>>, <<"size_hint", Z8>> >> }             \* (calls after None must still return)
+Finals == { <<"rest", Z8>>, <<"fold", Z8>>, <<"collect", Z8>>, <<"count", Z8>>, <<"last", Z8>>, <<"nth", MaxW>> }
           \cup { <<"skip", k>> : k \in {W8(0), W8(1), W8(2), MaxW} }
           \cup { <<"step_by", k>> : k \in {W8(1), W8(2), W8(3), MaxW} }
 WalkOps == { <<"walk", p \o <<f>>, "iter">> : p \in Prefixes, f \in Finals }
